@@ -205,8 +205,8 @@ void gen_sched(Rng &r, sim::SchedSpec &s, int nprocs, bool serial_baseline, cons
     else if (w < 75) { s.strategy = sim::ST_PCT; s.pct_d = (int)r.range(1, 5); s.pct_len = r.range(50, 3000); }
     else if (w < 95) {
         s.strategy = sim::ST_STALL;
-        static const int kinds[] = {4, 19, 24, 29, 6, 20, 22, 12, 7, 27};
-        s.stall_kind = kinds[r.below(10)]; s.stall_k = (int)r.range(10, 300); s.stall_nth = (int)r.range(1, 25);
+        static const int kinds[] = {4, 19, 24, 29, 6, 20, 22, 12, 7, 27, 28, 32};
+        s.stall_kind = kinds[r.below(12)]; s.stall_k = (int)r.range(10, 300); s.stall_nth = (int)r.range(1, 25);
         static const double q[] = {0.3, 0.7, 0.9}; s.sticky_q = q[r.below(3)];
     } else s.strategy = sim::ST_SERIAL;
     if (r.chance(0.2)) s.delay_start = (int)r.range(1, 40);
@@ -241,6 +241,9 @@ static void gen_tunables(Rng &r, long ienv[9], int n) {
     ienv[4] = r.range(1, 16);                                    // rowblk
     ienv[5] = r.range(1, 8);                                     // colblk
     ienv[6] = -50; ienv[7] = -50; ienv[8] = -30;
+    // a relaxed supernode may have up to `relax` columns, so maxsuper < relax is a contradictory setting;
+    // it is only generated in a small tagged slice (known finding D14)
+    if (ienv[3] < ienv[2] && !r.chance(0.04)) ienv[3] = ienv[2] + r.range(0, 6);
     (void)n;
 }
 
@@ -284,24 +287,64 @@ Case gen_case(const std::string &profile, uint64_t seed, const GenOpts &go) {
     Rng rc(cfg_seed), rs(sim::derive(seed, 0xabcdef));
     bool baseline = (seed % (uint64_t)go.S) == 0;
 
-    if (profile == "ssv" || profile == "strf") {
-        base_config(rc, c, go, true);
+    if (profile == "ssv" || profile == "strf" || profile == "pipe" || profile == "term" || profile == "mem") {
+        GenOpts g2 = go;
+        base_config(rc, c, g2, true);
+        int n = c.M.n;
+        if (profile == "pipe") {
+            // chain-like elimination trees, narrow panels: parents are taken with pipelining and wait on long chains
+            static const int fams[] = {F_BAND, F_BAND, F_CHAINFOREST, F_CHAINFOREST, F_ARROW, F_GRID, F_BLOCKTRI, F_RANDOM};
+            int fam = fams[rc.below(8)];
+            if (n < 6) n = (int)rc.range(6, 40);
+            Pattern P = gen_pattern(rc, n, fam);
+            c.M = pattern_to_mat(P); c.family = family_names[fam]; c.transversal = P.transversal;
+            int vc = (int)rc.below(V_COUNT); c.valclass = valclass_names[vc];
+            c.values.clear(); c.values.push_back(gen_values(rc, c.M, vc, c.prec, P.transversal)); c.M.val = c.values[0];
+            c.ldb = std::max(1, n); c.nrhs = 1; c.rhs.clear();
+            std::vector<cld> b((size_t)c.ldb, cld(1, 0)); c.rhs.push_back(b);
+            c.colperm = rc.chance(0.6) ? 0 : (int)rc.below(4); c.user_perm_c.clear();
+        }
         OpSpec op;
-        gen_tunables(rc, op.ienv, c.M.n);
-        op.dyn_snode = rc.chance(0.25);
-        op.x.nprocs = pick_nprocs(rc, c.M.n);
+        gen_tunables(rc, op.ienv, n);
+        op.dyn_snode = rc.chance(profile == "mem" ? 0.4 : 0.12);
+        op.x.nprocs = pick_nprocs(rc, n);
+        if (profile == "pipe") { op.ienv[1] = rc.range(1, 3); op.ienv[2] = rc.range(1, 3); op.ienv[3] = std::max(op.ienv[3], op.ienv[2]); op.x.nprocs = (int)rc.range(2, 8); op.dyn_snode = false; }
+        if (profile == "term") {
+            int w = (int)rc.below(10);
+            if (w < 3) op.x.nprocs = (int)rc.range(n + 1, n + 8) > 24 ? 24 : (int)rc.range(n + 1, n + 8);
+            else if (w < 5) op.x.nprocs = (int)rc.range(12, 24);
+            if (op.x.nprocs > 24) op.x.nprocs = 24;
+        }
         op.x.panel_size = (int)op.ienv[1]; op.x.relax = (int)op.ienv[2];
         if (profile == "ssv") { op.kind = OP_GSSV; op.x.u = 1.0; }
         else {
             int e = (int)rc.below(10);
             op.kind = e < 6 ? OP_ROUTE : e < 8 ? OP_GSSV : OP_GSSVX;
+            if (profile == "pipe") op.kind = OP_ROUTE;
             static const double us[] = {0.0, 1e-3, 0.1, 0.5, 1.0, 1.0};
             op.x.u = rc.chance(0.2) ? rc.unit() : us[rc.below(6)];
             if (op.kind == OP_GSSV) op.x.u = 1.0;
-            op.x.fact = 0; op.x.trans = c.stype_nr && op.kind == OP_ROUTE ? 0 : 0;
+            op.x.fact = 0; op.x.trans = 0;
             if (op.kind == OP_GSSVX) op.x.trans = (int)rc.below(2);
         }
+        if (profile == "mem" && rc.chance(0.25)) {
+            // undersized tunables (fault): positive estimates that may be below the need
+            long nnz = c.M.nnz();
+            if (rc.chance(0.6)) op.ienv[7] = rc.range(1, std::max<long>(2, 2 * nnz));
+            if (rc.chance(0.6)) op.ienv[8] = rc.range(1, std::max<long>(2, 3 * nnz));
+            if (op.dyn_snode && rc.chance(0.5)) op.ienv[6] = rc.range(1, std::max<long>(2, 4 * nnz));
+        }
         gen_sched(rs, op.sched, op.x.nprocs, baseline, profile);
+        if (profile == "pipe" && !baseline && rs.chance(0.5)) {
+            op.sched.strategy = sim::ST_STALL;
+            static const int kinds[] = {4, 4, 24, 6, 27, 12};
+            op.sched.stall_kind = kinds[rs.below(6)]; op.sched.stall_k = (int)rs.range(20, 400); op.sched.stall_nth = (int)rs.range(1, 30);
+            op.sched.sticky_q = 0.5;
+        }
+        if (profile == "term" && !baseline) {
+            if (rs.chance(0.5)) op.sched.delay_start = (int)rs.range(1, 200);
+            if (rs.chance(0.08)) op.faults.thread_create_fail = (int)rs.below((uint64_t)op.x.nprocs);
+        }
         c.ops.push_back(op);
         return c;
     }
